@@ -241,14 +241,11 @@ def _unroll_table_loops(tree):
             i = 0
             while i < len(blk):
                 st = blk[i]
-                if isinstance(st, ast.For) and leaks(st):
-                    # the loop's variables are used after it: leave it
-                    i += 1
-                    continue
-                rep = _unrolled(st, tables) if isinstance(st, ast.For) \
+                lk = isinstance(st, ast.For) and leaks(st)
+                rep = _unrolled(st, tables, lk) if isinstance(st, ast.For) \
                     else None
                 if rep is None and isinstance(st, ast.For):
-                    rep = _unrolled_plain(st)
+                    rep = _unrolled_plain(st, lk)
                 if rep is not None:
                     blk[i:i + 1] = rep
                     i += len(rep)
@@ -256,7 +253,7 @@ def _unroll_table_loops(tree):
                     i += 1
 
 
-def _unrolled(lp, tables):
+def _unrolled(lp, tables, leak=False):
     if isinstance(lp.iter, ast.Name) and lp.iter.id in tables:
         elts = tables[lp.iter.id]
     elif isinstance(lp.iter, (ast.Tuple, ast.List)) and lp.iter.elts and \
@@ -297,25 +294,34 @@ def _unrolled(lp, tables):
         return None
     if not inner and has_break:
         inner = [ast.copy_location(ast.Pass(), iff)]
+    def binds(row):
+        # the loop variables keep the row's values after the loop
+        return [ast.copy_location(ast.Assign(
+            targets=[ast.Name(id=t, ctx=ast.Store())],
+            value=_plain_copy(v)), lp) for t, v in zip(tnames, row)]
     arms = []
     for e in elts:
         sub = _SubstNames(dict(zip(tnames, e.elts)))
         test = sub.visit(_plain_copy(iff.test))
         body = [sub.visit(_plain_copy(x)) for x in inner]
+        if leak and has_break:
+            body = binds(e.elts) + body
         arm = ast.If(test=test, body=body, orelse=[])
         ast.copy_location(arm, iff)
         arms.append(arm)
     if not has_break:
-        return arms
+        return arms + (binds(elts[-1].elts) if leak else [])
     # chain
     tail = _plain_copy(lp.orelse) if lp.orelse else []
+    if leak:
+        tail = binds(elts[-1].elts) + tail
     for arm in reversed(arms):
         arm.orelse = tail
         tail = [arm]
     return tail
 
 
-def _unrolled_plain(lp):
+def _unrolled_plain(lp, leak=False):
     """``for x in (a, b): body`` over a short display of names / attributes
     / constants that the body does not rebind is body[x:=a]; body[x:=b]."""
     if not (isinstance(lp.iter, (ast.Tuple, ast.List)) and lp.iter.elts and
@@ -351,6 +357,10 @@ def _unrolled_plain(lp):
     for r in rows:
         sub = _SubstNames(dict(zip(tnames, r)))
         out.extend(sub.visit(_plain_copy(x)) for x in lp.body)
+    if leak:
+        out.extend(ast.copy_location(ast.Assign(
+            targets=[ast.Name(id=t, ctx=ast.Store())],
+            value=_plain_copy(v)), lp) for t, v in zip(tnames, rows[-1]))
     return out
 
 
